@@ -2,6 +2,7 @@
 import Verif.Common.Proto
 import Verif.C02.Model
 import Verif.C02.Lexer
+import Verif.C02.XText
 open Lean Verif.Proto Verif.C02 Verif.Codec
 
 namespace Verif.C02.Driver
@@ -155,6 +156,14 @@ def ofIndent (j : Json) : Except String (Option Nat) :=
   | .ok v => do pure (some (← v.getNat?))
   | .error _ => pure none
 
+/-- the `indent` argument as dmrx sees it: null (None/False), "true" (True, 'LKB', 'Lkb', 'lkb') or an integer -/
+def ofXIndent (j : Json) : Except String Indent :=
+  match j.getObjVal? "xindent" with
+  | .ok Json.null => pure .off
+  | .ok (Json.str _) => pure .on
+  | .ok v => do pure (.by (← v.getNat?))
+  | .error _ => pure .off
+
 def bindEx {α β} (x : Except Err α) (f : α → Except Err β) : Except Err β :=
   match x with
   | .ok a => f a
@@ -191,7 +200,13 @@ def handle (j : Json) : Except String Json := do
     let jj := jList (fun d => Json.mkObj [("enc", jJV (toDict o d)), ("dec", jEx jDMRS (fromDict (toDict o d)))]) ds
     let p := jList (fun d => Json.mkObj [("enc", jEx (jList jTriple) (toTriples o d)),
                                           ("dec", jEx jDMRS (bindEx (toTriples o d) fromTriples))]) ds
-    pure (Json.mkObj [("ctor", jList jDMRS ds), ("sd", sd), ("x", x), ("j", jj), ("p", p)])
+    let xi ← ofXIndent j
+    let xtext : Json :=
+      if single then (match ds with
+        | d :: _ => jEx cps (encodeXText o xi d)
+        | [] => Json.null)
+      else jEx cps (encodeXTextList o xi ds)
+    pure (Json.mkObj [("ctor", jList jDMRS ds), ("sd", sd), ("x", x), ("j", jj), ("p", p), ("xtext", xtext)])
   | "sd_dec" => do
     let toks ← (← Verif.Proto.getArr j "toks").mapM ofTok
     let single ← getBool j "single"
